@@ -73,7 +73,8 @@ class UnionSpecifier(VersionSpecifier):
                 == {0}
             ):
                 epoch = "" if left.max.epoch == 0 else f"{left.max.epoch}!"
-                version = ".".join(map(str, left.max.release[:first_different])) + ".*"
+                # take the prefix from the zero-padded segments: left.max may be shorter
+                version = ".".join(map(str, left_stable[1 : first_different + 1])) + ".*"
                 return f"!={epoch}{version}"
 
         return None
